@@ -960,6 +960,8 @@ func NewEnum(config EnumConfig) *Enum {
 	if gt.values, gt.err = gt.defineEnumValues(config.Values); gt.err != nil {
 		return gt
 	}
+	gt.getValueLookup()
+	gt.getNameLookup()
 
 	return gt
 }
